@@ -296,9 +296,13 @@ def stage_judge_trees(run, resfile, prop, casefile, name="judge_trees", keep=Fal
     run.traces += j["judged"]
     run.distinct += j["judged"]
     run.stage(name, prop=prop, cases_judged=j["judged"], failures=j["failures"], known=j.get("known", 0), secs=j["secs"], jvms=j["jvms"],
-              codec_model_drift=j.get("drift", 0))
+              codec_model_drift=j.get("drift", 0), **({"render_model_predicted": j.get("render_predicted", 0),
+                                                       "render_model_drift": j.get("render_drift", 0)} if prop in ("C03", "C04") else {}))
     if j.get("drift", 0):
         run.drift.append({"stage": name, "what": "decoded tree differs from ExprJson!RoundTripped for %d cases" % j["drift"]})
+    if j.get("render_drift", 0):
+        run.drift.append({"stage": name, "what": "SQL text or parameters differ from the driver model Render.tla for %d cases" % j["render_drift"],
+                          "examples": j.get("drift_examples", [])[:3]})
     for vf in vfiles:
         run.add_verdicts(vf, group_replay(prop, casefile))
 
